@@ -732,3 +732,69 @@ def _contains(root, node):
             return True
         x = x.parent
     return False
+
+
+def check_listing_bytes_paired(db, rep, rule):
+    """The output pass prints the listing line and writes the machine-code bytes of each instruction in the same loop iteration.
+    On every path from the listing call to the end of the iteration a byte emitter must be passed (directly, or through a
+    helper that reaches one on all of ITS paths); otherwise an instruction appears in the listing but not in the code, and
+    every later branch target and instruction index differs between the two.  Paths that report a compile error are exempt."""
+    from collections import deque
+    tu = db.tu("orcx86insn")
+    f = tu.fn["orc_x86_output_insns"]
+    rep.saw(f)
+    E = {"orc_x86_insn_output_opcode", "orc_vex_insn_codegen"}
+
+    def is_error(e):
+        return (e.k == "CallExpr" and e.name == "orc_compiler_error") or \
+            (e.k == "BinaryOperator" and e.op == "=" and (access_path(e.c[0]) or "").endswith("->error") and strip_casts(e.c[1]).v)
+
+    def avoids(g, start=None):
+        """block path from `start` element (or entry) to the exit of g passing neither a byte emitter nor an error report"""
+        if start is None:
+            b0, i0 = g.entry, 0
+        else:
+            p = g.pos(start)
+            if p is None:
+                return None
+            b0, i0 = p[0], p[1] + 1
+        seen = set()
+        dq = deque([(b0, i0, (b0,))])
+        while dq:
+            b, i, path = dq.popleft()
+            if (b, i > 0) in seen:
+                continue
+            seen.add((b, i > 0))
+            blk = g.blocks[b]
+            if any((e.k == "CallExpr" and e.name in E) or is_error(e) for e in blk.el[i:]):
+                continue
+            if b == g.exit:
+                return list(path)
+            if blk.noreturn:
+                continue
+            for s in blk.succs:
+                if s is not None:
+                    dq.append((s, 0, path + (s,)))
+        return None
+    changed = True
+    while changed:
+        changed = False
+        for g in tu.main_functions():
+            if g.name in E or g is f or g.body is None:
+                continue
+            if any(c.name in E for c in g.calls()) and avoids(g) is None:
+                E.add(g.name)
+                changed = True
+    asm = [c for c in f.calls("orc_x86_insn_output_asm")]
+    if len(asm) != 1:
+        raise AnalysisBroken("orc_x86_output_insns: expected one call of orc_x86_insn_output_asm, found %d" % len(asm))
+    from flow import describe_path
+    w = avoids(f, asm[0])
+    helpers = sorted(c.name for c in f.calls() if c.name in tu.fn and c.name not in E and c.name != "orc_x86_insn_output_asm" and
+                     any(cc.name in E or cc.name in ("orc_x86_insn_output_opcode",) for cc in tu.fn[c.name].calls()))
+    rep.check(w is None, rule, "orc/orcx86insn.c::orc_x86_output_insns", "asm-then-bytes",
+              "after the listing line of an instruction every path of the iteration reaches a byte emitter (%s)" % ", ".join(sorted(E)),
+              "orc_x86_output_insns prints the listing line of an instruction and can then finish the iteration without emitting its bytes (%s%s): the "
+              "listing contains an instruction the machine code lacks, and all later instruction indexes and branch targets differ" %
+              (describe_path(f, w) if w else "", "; helper(s) %s can return without reaching orc_x86_insn_output_opcode" % helpers if helpers else ""), line=asm[0].line)
+    return 1
